@@ -86,3 +86,29 @@ func VpH_C11_roundtrip() {
 	}
 	vp.Cover("end")
 }
+
+// VpH_C11_rt_place: placement half of the FEN round trip. The occupied squares are the driver's concrete set (so the
+// layout of the printed text - digits and slashes - is concrete), the piece standing on each of them is arbitrary
+// (kings on the driver's squares); side to move from the driver, no rights, no en-passant target, counters 0 and 1.
+// Printing and parsing back preserves the placement in all three encodings.
+func VpH_C11_rt_place() {
+	stm := Color(vp.Param("stm"))
+	wk, bk := vp.Param("wk"), vp.Param("bk")
+	occ := uint64(vp.Param("occ"))
+	b := VpSymBoardSparse(stm, wk, bk, int(occ))
+	for sq := 0; sq < 64; sq++ {
+		if occ>>uint(sq)&1 != 0 && sq != wk && sq != bk {
+			vp.Assume(b.SquaresToPiece[sq] != NoPiece)
+		}
+	}
+	b.Castles, b.EnPassant, b.FiftyCnt, b.fullMoves = 0, 0, 0, 1
+	text := b.FEN()
+	p, err := FromFEN(text)
+	vp.Assert(err == nil, "printed-fen-is-accepted")
+	if err == nil {
+		same := p.SquaresToPiece == b.SquaresToPiece && p.Pieces == b.Pieces && p.Colors == b.Colors
+		vp.Assert(same, "round-trip-preserves-placement")
+		vp.Assert(p.STM == b.STM && p.Castles == 0 && p.EnPassant == 0 && p.FiftyCnt == 0 && p.fullMoves == 1, "round-trip-preserves-the-concrete-tail")
+	}
+	vp.Cover("end")
+}
